@@ -147,6 +147,39 @@ def scanner_cases(tier, rng):
                             b[p] = s1
                             b[q] = s2
                             cases.append((name, 0, bytes(b)))
+        # three special bytes: a carriage return inside a comment that a line feed ends later (blank skipper); a pair of
+        # colons before / after the delimiter that ends the token (identifier scanners) - at every lane of 1..3 blocks
+        tri_lens = [17, 20, 33, 40, 49] if not thorough else [17, 18, 20, 31, 33, 40, 47, 49, 64, 65]
+        for n in tri_lens:
+            fill = sp["fill"][0]
+            if name == "ws":
+                for p in range(0, n - 2):
+                    for q in range(p + 1, n - 1):
+                        for r in (q + 1, n - 1):
+                            b = bytearray(bytes([fill]) * n)
+                            b[p], b[q], b[r] = 0x3B, 0x0D, 0x0A
+                            cases.append((name, 0, bytes(b) + b"x"))
+                            b[r] = 0x61  # comment not ended: everything up to the end belongs to it
+                            cases.append((name, 0, bytes(b)))
+            elif name in ("ident", "identsimd"):
+                for p in range(0, n):
+                    for q in range(0, n - 1):
+                        if q == p or q + 1 == p:
+                            continue
+                        for dl in (0x20, 0x22, 0x29):
+                            b = bytearray(bytes([fill]) * n)
+                            b[p] = dl
+                            b[q] = b[q + 1] = 0x3A
+                            cases.append((name, 0, bytes(b)))
+            elif name == "quote":
+                for p in range(0, n - 2):
+                    for q in range(p + 1, n - 1):
+                        b = bytearray(bytes([fill]) * n)
+                        b[p], b[p + 1], b[q + 1 if q == p else q] = 0x5C, 0x5C, 0x22
+                        cases.append((name, 0, bytes(b)))
+                        b2 = bytearray(bytes([fill]) * n)
+                        b2[p], b2[q], b2[n - 1] = 0x00, 0x22, 0x22
+                        cases.append((name, 0, bytes(b2)))
         # every byte value in every lane of a full block (16 x 256), with both a neutral
         # and a terminating continuation
         for lane in range(16):
